@@ -204,6 +204,13 @@ def install() -> None:
         _time.tzset()
     except Exception:
         pass
+    try:  # one arrow CPU / IO thread per harness process (see dsmc/reader.py: rare hangs of the shared pool)
+        import pyarrow as _pa
+
+        _pa.set_cpu_count(1)
+        _pa.set_io_thread_count(1)
+    except Exception:  # noqa
+        pass
     _uuid.uuid4 = _uuid4
     # `time` stays the real module for everybody else (multiprocessing's
     # deadline loops spin forever on a frozen monotonic clock): the library's
